@@ -83,7 +83,10 @@ def sourceHashes : List (String × String) :=
     which the model does not transcribe (only Call-versus-CallSlice of runCfg's deferred loop is a fact). -/
 def alsoReviewed : List (String × String) :=
   [("callBin", "fad6515f69157102"),
-   ("call", "6d0b111cecb0ee9c")]
+   ("call", "6d0b111cecb0ee9c"),
+   -- db2d0c1 (C02 F02-5): the "skip a zero-valued argument" shortcut of call applies only when the types differ;
+   -- arguments of the parameter's type are always copied (what the model assumes for every argument)
+   ("call", "f7d2679c6d3b791d")]
 
 /-- the fingerprints read from the source are, name by name and in order, reviewed ones -/
 def hashesReviewed (gen : List (String × String)) : Bool :=
